@@ -302,20 +302,21 @@ def pick_variant(ctx, exe, runs, lines):
 
 
 def run(ctx):
+    import time
+    from concurrent.futures import ThreadPoolExecutor
+    t0 = time.time()
+    # the model and the harness serve the state-level tie; the end-to-end search below needs neither and always runs
     exe, log = vlib.build_extracted("names")
     if not exe:
         ctx.tie_broken("extraction-names", log)
-        return
     hb, l2 = vlib.compile_harness("h_book", flags=("-DNDEBUG",))
     if not hb:
         ctx.tie_broken("harness-build", l2)
-        return
-    import time
-    t0 = time.time()
     sigs = {}
     ctx.extra["divergence_signatures"] = sigs
     rng = ctx.rng
-    npairs = 220 if ctx.quick else 5000
+    npairs = 150 if ctx.quick else 4000
+    nnested = 130 if ctx.quick else 3000
     todo = scenarios(rng)
     for k in range(npairs):
         g = sg.Gen(rng, glob=(rng.random() < 0.1))
@@ -327,41 +328,51 @@ def run(ctx):
             g.mode = "itp"
         cmds = sg.history_with_injections(g, rng.randint(10, 34), kinds, rng.randint(1, 3))
         todo.append((g, cmds, kinds))
-    # ---- state-level tie on the scripts WITH the injected commands -----------------------------------
-    from concurrent.futures import ThreadPoolExecutor
-    pool = ThreadPoolExecutor(max_workers=8)
-    runs, lines = [], []
-    for (g, cmds, kinds), (segs, dumps, rc, tail) in zip(todo, pool.map(lambda t: nt.run_harness(hb, t[1], t[0].NF), todo)):
-        runs.append((g, cmds, segs, dumps, rc, tail))
-        lines.append(sg.abstract_line(cmds, nt.answers_of(cmds, segs), g.NF))
+    # rejected commands at depth >= 1 (also between a check-sat and its queries), then pops, then uses of everything live
+    NEST = [k for k in KINDS if k not in ("before-set-logic", "set-logic-again", "set-option-late")]
+    for k in range(nnested):
+        g = sg.Gen(rng, glob=(rng.random() < 0.08))
+        kinds = [NEST[k % len(NEST)]] if rng.random() < 0.75 else rng.sample(NEST, 2)
+        cmds = sg.history_nested(g, kinds, rng.randint(1, 2))
+        todo.append((g, cmds, kinds))
+    pool = ThreadPoolExecutor(max_workers=4)
     bin_with = list(pool.map(lambda t: nt.run_binary(t[1]), todo))
     bin_without = list(pool.map(lambda t: nt.run_binary([c for c in t[1] if not c.injected]), todo))
     t1 = time.time()
-    variant, models = pick_variant(ctx, exe, runs, lines)
-    if variant is None:
-        return
-    ctx.extra["timing"] = dict(harness_s=round(t1 - t0, 1), model_s=round(time.time() - t1, 1))
-    ctx.extra["model_variant"] = dict(bits=variant, repairs=[n for n, b in zip(nt.FIX_NAMES, variant) if b == "1"] or ["none (code as it is)"])
-    if variant != nt.AS_IS:
-        ctx.note("the interpreter matches the model variant %s (repairs: %s)" % (variant, ctx.extra["model_variant"]["repairs"]))
+    # ---- state-level tie on the scripts WITH the injected commands -----------------------------------
+    models, runs = None, None
+    if exe and hb:
+        runs, lines = [], []
+        for (g, cmds, kinds), (segs, dumps, rc, tail) in zip(todo, pool.map(lambda t: nt.run_harness(hb, t[1], t[0].NF), todo)):
+            runs.append((g, cmds, segs, dumps, rc, tail))
+            lines.append(sg.abstract_line(cmds, nt.answers_of(cmds, segs), g.NF))
+        variant, models = pick_variant(ctx, exe, runs, lines)
+        if variant is not None:
+            ctx.extra["model_variant"] = dict(bits=variant, repairs=[n for n, b in zip(nt.FIX_NAMES, variant) if b == "1"] or ["none (code as it is)"])
+            if variant != nt.AS_IS:
+                ctx.note("the interpreter matches the model variant %s (repairs: %s)" % (variant, ctx.extra["model_variant"]["repairs"]))
+    ctx.extra["timing"] = dict(binary_s=round(t1 - t0, 1), harness_model_s=round(time.time() - t1, 1))
     # ---- end-to-end pairs ------------------------------------------------------------------------------
-    for (g, cmds, kinds), (_, _, hsegs, hdumps, hrc, htail), model, bw, bwo in zip(todo, runs, models, bin_with, bin_without):
+    for idx, ((g, cmds, kinds), bw, bwo) in enumerate(zip(todo, bin_with, bin_without)):
+        model = models[idx] if models else None
+        hsegs = runs[idx][2] if runs else None
         text = sg.render(cmds)
         inj_idx = [i for i, c in enumerate(cmds) if c.injected]
         without = [c for c in cmds if not c.injected]
-        # model prediction: which injected commands change the state
-        cm, _ = nt.canon([m[2] for m in model])
-        changing = []
-        for i in inj_idx:
-            if i < len(model) and i > 0 and cm[i] != cm[i - 1]:
-                changing.append(i)
+        # model prediction: which injected commands change the state (None: no model available)
+        changing = None
+        if model is not None:
+            cm, _ = nt.canon([m[2] for m in model])
+            changing = [i for i in inj_idx if i < len(model) and i > 0 and cm[i] != cm[i - 1]]
         followed = any(c.kind.startswith("get-") or c.kind == "check-sat" for c in cmds[(inj_idx[0] if inj_idx else len(cmds)):] if not c.injected)
         ctx.case(key=text, nontrivial=bool(inj_idx) and followed, kind="inject:" + "+".join(sorted(set(c.meta["inj"] for c in cmds if c.injected)) or ["none"]),
-                 sample=dict(script=text[:700], injected=[cmds[i].text for i in inj_idx], model_says_state_changes=[cmds[i].text for i in changing]))
+                 sample=dict(script=text[:700], injected=[cmds[i].text for i in inj_idx],
+                             model_says_state_changes=[cmds[i].text for i in changing] if changing is not None else "no model"))
+        rc1, s1, t1_, e1 = bw
+        rc2, s2, t2_, e2 = bwo
         for i in inj_idx:
-            ctx.count("injected:%s:%s:%s" % (cmds[i].meta["inj"], nt.resp_kind(hsegs[i]) if i < len(hsegs) else "?", "state-changes" if i in changing else "no-op"))
-        rc1, s1, t1, e1 = bw
-        rc2, s2, t2, e2 = bwo
+            ctx.count("injected:%s:%s:%s" % (cmds[i].meta["inj"], nt.resp_kind(s1[i]) if i < len(s1) else "?",
+                                             "?" if changing is None else ("state-changes" if i in changing else "no-op")))
         if rc2 < 0 or rc2 >= 128 or len(s2) < len(without):
             ctx.note("baseline script terminates abnormally (rc=%s): not a C19 matter, pair skipped" % rc2)
             ctx.count("pair-skipped:baseline-crash")
@@ -379,33 +390,41 @@ def run(ctx):
         if diverged is None:
             continue
         i, c, a, b, ka, kb, judged = diverged
-        before = [k for k in changing if k < i]
-        cause = None
-        if len(set(cmds[k].meta["inj"] for k in before)) > 1:
-            # several state-changing kinds precede the divergence: find the one that reproduces it on its own
-            for k in before:
+        modelled = [k for k in (changing or []) if k < i]
+        cands = modelled or [k for k in inj_idx if k < i]
+        culprit = cands[0] if cands else None
+        if len(set(cmds[k].meta["inj"] for k in cands)) > 1:
+            # several candidate kinds precede the divergence: find the one that reproduces it on its own
+            culprit = None
+            for k in cands:
                 only = [c2 for j2, c2 in enumerate(cmds) if not c2.injected or j2 == k]
                 rck, sk, tk, ek = nt.run_binary(only)
                 if rck < 0 or rck >= 128 or len(sk) < len(only):
-                    cause = cmds[k].meta["inj"]
+                    culprit = k
                     break
                 dk = first_divergence(None, g, only, sk, s2)
                 if dk is not None and dk[1] is c:
-                    cause = cmds[k].meta["inj"]
+                    culprit = k
                     break
-            if cause is None:
-                cause = "+".join(sorted(set(cmds[k].meta["inj"] for k in before)))
-        elif before:
-            cause = cmds[before[0]].meta["inj"]
+        if culprit is not None:
+            cause = cmds[culprit].meta["inj"]
+            shown = [cmds[culprit].text]
+            # the smallest pair: only the culprit injected
+            with_script = sg.render([c2 for j2, c2 in enumerate(cmds) if not c2.injected or j2 == culprit][:len(cmds)])
         else:
-            cause = "unexplained(%s)" % "+".join(sorted(set(cmds[k].meta["inj"] for k in inj_idx if k < i)))
+            cause = "+".join(sorted(set(cmds[k].meta["inj"] for k in cands))) or "none"
+            shown = [cmds[k].text for k in cands][:3]
+            with_script = text
+        if not modelled:
+            cause = "unexplained(%s)" % cause
         sig = "%s:%s" % (cause, c.kind)
         sigs[sig] = sigs.get(sig, 0) + 1
         what = "after the rejected %s, %s answers %r where the script without it answers %r%s" % (
-            [cmds[k].text for k in (before or [k for k in inj_idx if k < i])][:2], c.text, a[:160], b[:160], (" -- " + judged) if judged else "")
+            shown, c.text, a[:160], b[:160], (" -- " + judged) if judged else "")
         ctx.violation(sig, what, dict(with_script=text, without_script=sg.render(without), command=c.text, with_output=a, without_output=b,
-                                       injected=[cmds[k].text for k in inj_idx], model_says_state_changes=[cmds[k].text for k in changing],
-                                       logic=g.logic, mode=g.mode))
-        ctx.extra["timing"]["pairs_s"] = round(time.time() - t0, 1)
-        if not before:
+                                       injected=[cmds[k].text for k in inj_idx], culprit=shown,
+                                       model_says_state_changes=[cmds[k].text for k in changing] if changing is not None else "no model",
+                                       logic=g.logic, mode=g.mode, how="opensmt <with_script> vs opensmt <without_script>: compare the answers of `command`"))
+        if not modelled and model is not None:
             ctx.tie_broken("divergence-without-modelled-state-change", "%s: %s" % (sig, what[:300]), dict(with_script=text))
+    ctx.extra["timing"]["total_s"] = round(time.time() - t0, 1)
